@@ -196,8 +196,14 @@ func c11(c *Ctx) {
 						nonEmpty = true
 					}
 				}
-				if (isObj(be.X, headerObj) && isObj(be.Y, authObj)) || (isObj(be.Y, headerObj) && isObj(be.X, authObj)) {
-					if (be.Op == token.NEQ && !f.Val) || (be.Op == token.EQL && f.Val) {
+			}
+			for _, f := range facts {
+				isObj := func(e ast.Expr, o types.Object) bool {
+					id, ok := ast.Unparen(e).(*ast.Ident)
+					return ok && o != nil && astx.Obj(info, id) == o
+				}
+				for _, eq := range eqPairs(info, sess.Node(), f) {
+					if (isObj(eq[0], headerObj) && isObj(eq[1], authObj)) || (isObj(eq[1], headerObj) && isObj(eq[0], authObj)) {
 						equal = true
 					}
 				}
@@ -474,14 +480,6 @@ func c11(c *Ctx) {
 						}
 					}
 				}
-				be, isBE := ast.Unparen(f.Expr).(*ast.BinaryExpr)
-				if !isBE {
-					continue
-				}
-				equal := (be.Op == token.NEQ && !f.Val) || (be.Op == token.EQL && f.Val)
-				if !equal {
-					continue
-				}
 				fromBasicAuth := func(e ast.Expr, idx int) bool {
 					id, ok := ast.Unparen(e).(*ast.Ident)
 					if !ok {
@@ -503,15 +501,17 @@ func c11(c *Ctx) {
 					})
 					return res
 				}
-				for _, pair := range [][2]ast.Expr{{be.X, be.Y}, {be.Y, be.X}} {
-					if fromBasicAuth(pair[0], 0) {
-						if s, ok := astx.ConstString(info, pair[1]); ok && s != "" {
-							okUser = true
+				for _, eq := range eqPairs(info, priv.Node(), f) {
+					for _, pair := range [][2]ast.Expr{{eq[0], eq[1]}, {eq[1], eq[0]}} {
+						if fromBasicAuth(pair[0], 0) {
+							if s, ok := astx.ConstString(info, pair[1]); ok && s != "" {
+								okUser = true
+							}
 						}
-					}
-					if fromBasicAuth(pair[0], 1) {
-						if se, ok := ast.Unparen(pair[1]).(*ast.SelectorExpr); ok && astx.FieldSel(info, se) == np {
-							okPass = true
+						if fromBasicAuth(pair[0], 1) {
+							if se, ok := ast.Unparen(pair[1]).(*ast.SelectorExpr); ok && astx.FieldSel(info, se) == np {
+								okPass = true
+							}
 						}
 					}
 				}
@@ -674,4 +674,64 @@ func (c *Ctx) sessionSensitiveParam(fi *load.FuncInfo, idx int, seen map[*load.F
 		return !sensitive
 	})
 	return sensitive
+}
+
+// eqPairs returns pairs of expressions the fact proves equal: a == b (true), a != b (false),
+// subtle.ConstantTimeCompare([]byte(a), []byte(b)) == 1, and (x & y) == 1 over such results.
+func eqPairs(info *types.Info, root ast.Node, f cfgx.Fact) [][2]ast.Expr {
+	if f.Tag != nil {
+		return nil
+	}
+	strip := func(e ast.Expr) ast.Expr {
+		e = ast.Unparen(e)
+		if call, ok := e.(*ast.CallExpr); ok && astx.IsConversion(info, call) && len(call.Args) == 1 {
+			return ast.Unparen(call.Args[0])
+		}
+		return e
+	}
+	var ctc func(e ast.Expr, depth int) [][2]ast.Expr // e evaluates to 1 => these pairs are equal
+	ctc = func(e ast.Expr, depth int) [][2]ast.Expr {
+		e = ast.Unparen(e)
+		if depth > 3 {
+			return nil
+		}
+		if call, ok := e.(*ast.CallExpr); ok && len(call.Args) == 2 {
+			if fn := astx.Callee(info, call); fn != nil && isFunc(fn, "crypto/subtle", "ConstantTimeCompare") {
+				return [][2]ast.Expr{{strip(call.Args[0]), strip(call.Args[1])}}
+			}
+		}
+		if be, ok := e.(*ast.BinaryExpr); ok && be.Op == token.AND {
+			a, b := ctc(be.X, depth+1), ctc(be.Y, depth+1)
+			if a != nil && b != nil {
+				return append(a, b...)
+			}
+			return nil
+		}
+		if id, ok := e.(*ast.Ident); ok {
+			if d := uniqueDef(info, root, id); d != nil {
+				return ctc(d, depth+1)
+			}
+		}
+		return nil
+	}
+	be, ok := ast.Unparen(f.Expr).(*ast.BinaryExpr)
+	if !ok || (be.Op != token.EQL && be.Op != token.NEQ) {
+		return nil
+	}
+	equal := (be.Op == token.EQL) == f.Val
+	one := func(e ast.Expr) bool { v, ok := astx.ConstInt(info, e); return ok && v == 1 }
+	if equal {
+		if one(be.Y) {
+			if p := ctc(be.X, 0); p != nil {
+				return p
+			}
+		}
+		if one(be.X) {
+			if p := ctc(be.Y, 0); p != nil {
+				return p
+			}
+		}
+		return [][2]ast.Expr{{be.X, be.Y}}
+	}
+	return nil
 }
